@@ -215,9 +215,17 @@ impl<'a> Gen<'a> {
                         let lane = self.value_lane().1;
                         Act::SetV { lane, v: self.val(source) }
                     } else if r < 65 {
-                        Act::Upd { lane, k, v: self.val(source) }
+                        if self.rng.chance(1, 5) {
+                            Act::Xf { lane, k, v: self.val(source) }
+                        } else {
+                            Act::Upd { lane, k, v: self.val(source) }
+                        }
                     } else if r < 92 {
-                        Act::Rem { lane, k }
+                        if self.rng.chance(1, 5) {
+                            Act::XfRem { lane, k }
+                        } else {
+                            Act::Rem { lane, k }
+                        }
                     } else {
                         Act::Clr { lane }
                     }
@@ -284,6 +292,10 @@ impl<'a> Gen<'a> {
                 }
             };
             acts.push(a);
+        }
+        // One command in twelve ends with a failing handler: what it changed before must still be published.
+        if matches!(focus, Focus::Value | Focus::Map | Focus::Sync | Focus::Protocol) && self.rng.chance(1, 12) {
+            acts.push(Act::Fail);
         }
         acts
     }
